@@ -544,6 +544,8 @@ class Twin:
                 extra["tiesbig"] = _ties_big(op)
                 kw = kw_python(op.get("kw", {}))
                 wash = op.get("wash", 1)
+                if op.get("washnp") and isinstance(wash, int):
+                    wash = np.int64(wash)  # a scheme taken from an array of protocol parameters
                 wl.transfer(
                     src,
                     shape_wells(op["sw"], wp),
@@ -983,6 +985,7 @@ class Twin:
                 self.tmp = tempfile.mkdtemp(prefix="rtv_fs_")
             fname = op.get("fname") or ("saved.gwl" if a["ext"] == "gwl" else "saved.txt")
             path = os.path.join(self.tmp, fname)
+            os.makedirs(os.path.dirname(path), exist_ok=True)
         elif name == "exit":
             path = self.path
             a["haspath"] = path is not None
